@@ -310,7 +310,7 @@ def d7_6(ctx):
     arr = ctx.model.cls(f"{DT}:Array.Array")
     enc = arr.methods.get("encode")
     good, facts = False, {}
-    for r in [r for r in walk(enc) if isinstance(r, ast.Return)] if enc else []:
+    for r in [enc] if enc else []:
         for call in walk(r):
             if isinstance(call, ast.Call) and isinstance(call.func, ast.Attribute) and call.func.attr == "join" and call.args and isinstance(call.args[0], (ast.GeneratorExp, ast.ListComp)):
                 g = call.args[0]
